@@ -65,14 +65,14 @@ theorem printAttrs_xmlns (b : Bool) : printAttrs (xmlnsAttrs b) = xmlnsAttr b :=
   · rfl
   · decide
 
-def leafX (tag : Str) (b : Bool) (text : Str) : X := .node tag (xmlnsAttrs b) [] text .nil
-def nodeX (tag : Str) (b : Bool) (kids : XS) : X := .node tag (xmlnsAttrs b) [] [] kids
+def leafX (tag : Str) (b : Bool) (text : Str) : X := .node tag (xmlnsAttrs b) [] false text .nil
+def nodeX (tag : Str) (b : Bool) (kids : XS) : X := .node tag (xmlnsAttrs b) [] false [] kids
 
 theorem wrap_leaf (tag : Str) (b : Bool) (text : Str) : wrap tag b (escText text) = render (leafX tag b text) := by
-  simp [wrap, leafX, render, renderS, printOpen, printClose, printAttrs_xmlns]
+  simp [wrap, leafX, render, renderS, printOpen, printClose, printAttrs_xmlns, escOf]
 
 theorem wrap_node (tag : Str) (b : Bool) (kids : XS) : wrap tag b (renderS kids) = render (nodeX tag b kids) := by
-  simp [wrap, nodeX, render, printOpen, printClose, printAttrs_xmlns, escText]
+  simp [wrap, nodeX, render, printOpen, printClose, printAttrs_xmlns, escText, escOf]
 
 def xs2 (a b : X) : XS := .cons a (.cons b .nil)
 theorem renderS_xs2 (a b : X) : renderS (xs2 a b) = render a ++ render b := by simp [xs2, renderS]
@@ -120,7 +120,7 @@ def encodeX : Val → Bool → X
           (xs2 (ltX tDispName false (optS dT) (dL.getD "en".toList))
                (ltX tDescr false (optS eT) (eL.getD "en".toList)))))) .nil)))
   | .list tn items, b =>
-    .node (tListOf ++ tn) (if b then [⟨[' ', ' '], "xmlns".toList, TYPES_NS⟩] else []) (if b then [] else [' ']) []
+    .node (tListOf ++ tn) (if b then [⟨[' ', ' '], "xmlns".toList, TYPES_NS⟩] else []) (if b then [] else [' ']) false []
       (encodeXS items)
   | _, _ => leafX [] false []
 def encodeXS : ValS → XS
@@ -210,7 +210,7 @@ theorem encodeText_render (v : Val) (b : Bool) (h : Supported v) : encodeText v 
     simp [List.append_assoc]
     rfl
   | .list tn items, h =>
-    simp only [encodeText, encodeX, render, printOpen, printClose, escText]
+    simp only [encodeText, encodeX, render, printOpen, printClose, escText, escOf, Bool.false_eq_true, if_false]
     rw [encodeTexts_render items h.2]
     cases b
     · simp [printAttrs, xmlnsAttr]
